@@ -34,6 +34,60 @@ Inductive profile :=
 Definition is_v2 (p : profile) : bool := match p with PV2 => true | _ => false end.
 Definition legacy_prof (p : profile) : bool := match p with PIndy | PLegacy => true | _ => false end.
 
+(* ---- media type profile of a destination (outbound.go mediaTypeProfile) and the packer family the packager
+   selects for it (packager.go getCTYAndPacker) ---- *)
+Inductive mtp :=
+| M_V1Plain        (* application/json;flavor=didcomm-msg *)
+| M_RFC19          (* JWM/1.0 *)
+| M_AIP2RFC19      (* didcomm/aip2;env=rfc19 *)
+| M_AIP1           (* didcomm/aip1 *)
+| M_Indy           (* IndyAgent *)
+| M_V2EncV1Plain   (* application/didcomm-encrypted+json;cty=application/json;flavor=didcomm-msg *)
+| M_AIP2RFC587     (* didcomm/aip2;env=rfc587 *)
+| M_V2Enc          (* application/didcomm-encrypted+json *)
+| M_V2Plain        (* application/didcomm-plain+json *)
+| M_DIDCommV2      (* didcomm/v2 *)
+| M_Other.         (* a string the dispatcher does not know *)
+
+Inductive tier := TLow | TMid | TTop | TNone.
+Definition tier_of (m : mtp) : tier :=
+  match m with
+  | M_V1Plain | M_RFC19 | M_AIP2RFC19 | M_AIP1 | M_Indy => TLow
+  | M_V2EncV1Plain | M_AIP2RFC587 => TMid
+  | M_V2Enc | M_V2Plain | M_DIDCommV2 => TTop
+  | M_Other => TNone
+  end.
+
+(* the loop over the accept list: a low-priority type is kept only when nothing was chosen yet, a middle one
+   overrides, a v2 one is returned at once *)
+Fixpoint pick (mt : option mtp) (accept : list mtp) : option mtp :=
+  match accept with
+  | [] => mt
+  | m :: r =>
+      match tier_of m with
+      | TLow => pick (match mt with None => Some m | Some _ => mt end) r
+      | TMid => pick (Some m) r
+      | TTop => Some m
+      | TNone => pick mt r
+      end
+  end.
+Definition media_type (accept : list mtp) (dflt : mtp) : mtp :=
+  match pick None accept with Some m => m | None => dflt end.
+
+(* createForwardMessage's forward type and getCTYAndPacker's packer family *)
+Definition family (m : mtp) : option profile :=
+  match m with
+  | M_Indy => Some PIndy
+  | M_RFC19 | M_AIP2RFC19 | M_AIP1 => Some PLegacy
+  | M_V1Plain => Some PJweV1
+  | M_V2EncV1Plain | M_AIP2RFC587 | M_V2Enc | M_V2Plain | M_DIDCommV2 => Some PV2
+  | M_Other => None
+  end.
+Definition cfg_of (pf : profile) (auth : bool) (kt : ktype) (e : encalg) (st : kstyle) : cfg :=
+  mkcfg (match legacy_prof pf, auth with
+         | true, true => LegAuth | true, false => LegAnon | false, true => JweAuth | false, false => JweAnon
+         end) kt e st.
+
 (* the string a forward names its next hop with *)
 Inductive tref := TDidKey (k : N) | TB58 (k : N) | TDoc (k : N).
 Definition tref_eqb (a b : tref) : bool :=
